@@ -214,8 +214,79 @@ def degree_subtract(ctx, rule):
     ctx.ob(rule, fi, fi.node, False, why, construct=cons, unknown=why)
 
 
+def made_up_tempo_only_without_marks(ctx, rule='TEMPO/default-only-without-marks'):
+  """"the tempo marks ... are reported at the times they occur": get_tempos adds a tempo of its own only when the score declares
+  none.  The value it uses is the parser's running qpm, which after parsing is the *last* tempo read - the default 120 exactly when
+  no mark was read.  Made up under any wider condition (a first mark later than time 0, say) it reports an undeclared mark with
+  the final tempo's value."""
+  fi = ctx.func('musicxml_parser:MusicXMLDocument.get_tempos')
+  fn = fi.node
+  cons = 'get_tempos makes up a tempo only when the score declares none'
+  sts = [s_ for s_ in U.walk_stmts(fn) if isinstance(s_, ast.Assign) and len(s_.targets) == 1 and isinstance(s_.targets[0], ast.Attribute) and s_.targets[0].attr == 'qpm' and
+         any(isinstance(n_, ast.Attribute) and n_.attr == 'qpm' and 'state' in norm_text(n_.value) for n_ in ast.walk(s_.value))]
+  if not sts:
+    ctx.ob(rule, fi, fn, True, 'get_tempos does not build a tempo from the running state', construct=cons)
+    return
+  ret = [r_.value.id for r_ in ast.walk(fn) if isinstance(r_, ast.Return) and isinstance(r_.value, ast.Name)]
+  for st in sts:
+    kind, others = U.guard_kind(fn, st, lambda t, pol: (not pol) and isinstance(t, ast.Name) and t.id in ret)
+    if kind == 'exact':
+      ctx.ob(rule, fi, st, True, 'the tempo built from the running qpm is added only when no mark was collected', construct=cons)
+    elif kind == 'wider':
+      ctx.ob(rule, fi, st, False, 'a tempo whose qpm is the parser\'s running value is also made up when %s: after parsing, that value is the last tempo of the score, so an undeclared mark with '
+             'the final tempo appears (at time 0) in a score whose first mark comes later' % ' or '.join(norm_text(o) for o in others), construct=cons, definite=True)
+    else:
+      why = 'cannot classify: the condition under which get_tempos builds a tempo from the running qpm is not an emptiness test of the collected marks'
+      ctx.ob(rule, fi, st, False, why, construct=cons, unknown=why)
+
+
+def repair_only_without_notes(ctx, rule='REPAIR/only-a-measure-without-notes'):
+  """Part._repair_empty_measure replaces the single <forward> of a measure by a rest *when the measure has no note at all*.  The
+  evidence "no note" has to come from a look at every child: a count / find over the whole measure, or a scan that runs to its end.
+  A scan that leaves the loop at the first <forward> has not seen the notes behind it."""
+  fi = ctx.func('musicxml_parser:Part._repair_empty_measure')
+  fn = fi.node
+  cons = '_repair_empty_measure rewrites only measures that hold no <note>'
+  rem = [c for c in U.calls_in(fn) if isinstance(c.func, ast.Attribute) and c.func.attr == 'remove']
+  if not rem:
+    why = 'cannot classify: no <element>.remove(...) in _repair_empty_measure'
+    ctx.ob(rule, fi, fn, False, why, construct=cons, unknown=why)
+    return
+
+  def whole_measure_evidence(t, pol):
+    tx = norm_text(U.expand_locals(fn, t, at=rem[0]))
+    if "'note'" not in tx:
+      return False
+    if isinstance(t, ast.Compare) and len(t.ops) == 1:
+      if pol and isinstance(t.ops[0], ast.Eq) and 'findall' in tx and 0 in (U.const_value(t.left), U.const_value(t.comparators[0])):
+        return True
+      if pol and isinstance(t.ops[0], ast.Is) and '.find(' in tx and isinstance(t.comparators[0], ast.Constant) and t.comparators[0].value is None:
+        return True
+    return (not pol) and ('findall' in tx or '.find(' in tx or 'any(' in tx) and not isinstance(t, ast.Compare)
+  for c in rem:
+    conds = U.path_conditions(fn, c)
+    if any(whole_measure_evidence(t, p) for t, p in conds):
+      ctx.ob(rule, fi, c, True, 'the removal is reached only when a look at the whole measure found no <note>', construct=cons)
+      continue
+    scans = [lp for lp in ast.walk(fn) if isinstance(lp, ast.For) and getattr(lp, 'lineno', 0) < getattr(c, 'lineno', 0) and
+             any(isinstance(x, ast.Compare) and any(isinstance(k, ast.Constant) and k.value == 'note' for k in ast.walk(x)) for x in ast.walk(lp))]
+    early = [(lp, b) for lp in scans for b in ast.walk(lp) if isinstance(b, ast.Break) and U.enclosing_loops(fn, b) and U.enclosing_loops(fn, b)[-1] is lp]
+    if early:
+      lp, b = early[0]
+      ctx.ob(rule, fi, b, False, 'the scan for <note> children (line %d) is left by the break at line %d%s: the children behind that point are never looked at, so a measure whose notes follow its '
+             '<forward> is taken for empty - the <forward> is removed and a rest is appended, which moves every onset of the measure' % (
+                 lp.lineno, b.lineno, ''.join(' taken when ' + norm_text(t) for t, p in U.path_conditions(lp, b)[:1] if p)), construct=cons, definite=True)
+    elif scans:
+      ctx.ob(rule, fi, c, True, 'a scan over the children that has no early exit other than finding a note precedes the removal', construct=cons)
+    else:
+      why = 'cannot classify: how _repair_empty_measure establishes that the measure holds no <note> before it removes the <forward>'
+      ctx.ob(rule, fi, c, False, why, construct=cons, unknown=why)
+
+
 def run(ctx):
   # location-independent analyses first: an anchored rule that gives up later must not mask them
+  repair_only_without_notes(ctx)
+  made_up_tempo_only_without_marks(ctx)
   degree_subtract(ctx, 'DEGREE/subtract-is-no')
   chord_accidentals(ctx, 'HARMONY/accidental-spelling')
   tempo_independent_of_dynamics(ctx, 'TEMPO/independent-of-dynamics')
